@@ -46,6 +46,11 @@ func vfPos(doc []byte, line, char uint32) (off int, ok bool, mid bool) {
 		if off >= len(doc) || doc[off] == '\n' {
 			return 0, false, false // beyond the end of the line
 		}
+		if doc[off] == '\r' {
+			// "\r\n" ends the line for the client; a character index between \r and \n is
+			// something no client sends (no claim), anything further is beyond the line
+			return 0, false, units+1 == char
+		}
 		r, sz := utf8.DecodeRune(doc[off:])
 		if r >= 0x10000 {
 			if units+1 == char {
@@ -77,8 +82,11 @@ func VfH_change() {
 	text := vfBytes("t", tn)
 	vfAssume(utf8.Valid(doc))
 	vfAssume(utf8.Valid(text))
-	for _, b := range doc {
-		vfAssume(b != '\r') // lone CR / CRLF conventions differ between clients; outside this harness
+	for i, b := range doc {
+		// CRLF line ends are in; a lone CR (which gopls-style mappers do not treat as a line end) is outside this harness
+		if b == '\r' {
+			vfAssume(i+1 < len(doc) && doc[i+1] == '\n')
+		}
 	}
 	sl, sc, el, ec := vfU32("sl"), vfU32("sc"), vfU32("el"), vfU32("ec")
 	vfAssume(sl <= 6 && sc <= 6 && el <= 6 && ec <= 6)
@@ -97,7 +105,7 @@ func VfH_change() {
 	eo, eok, emid := vfPos(doc, el, ec)
 	vfObserve("accepted", vfB2U(err == nil))
 	if smid || emid {
-		vfNote("position inside a surrogate pair: no claim")
+		vfNote("position inside a surrogate pair or between CR and LF: no claim")
 		return
 	}
 	valid := sok && eok && so <= eo
